@@ -18,6 +18,7 @@ import KafkaVerif.Lemmas.PullReader
 import KafkaVerif.Lemmas.ReaderWorld
 import KafkaVerif.Lemmas.ReaderSystem
 import KafkaVerif.Lemmas.ByteReader
+import KafkaVerif.Lemmas.BufVarInt
 
 namespace KV.C02
 
@@ -259,6 +260,27 @@ theorem wrapper_bytes (enc : Int → Bytes → Bytes) (crc : Bytes → Nat) (m :
     (hv : RW.InRange RW.M32 ((enc codec (encMsgs crc inner)).length : Int)) :
     BR.AllOrShort BR.readWrapV1 (encB1 (wrapMsg enc crc m codec inner)) (some (enc codec (encMsgs crc inner))) :=
   BR.readWrapV1_spec (wrapMsg enc crc m codec inner) hk (by simpa [wrapMsg, Spec.RB.optLen] using hv)
+
+/-- `varint_refill`: the byte-level theorems above know a reader as the bytes it can still deliver.  The one function of
+read.go whose control flow depends on where the *buffered* bytes end is `readVarInt` (the fixed-width readers use
+`Peek(n)`, which bufio completes across refills): `Model/BufVarInt.lean` is its loop as written, over a bufio.Reader
+(`buf`) refilled by reads of the connection (`chunks`, one element per read, then EOF).  For every buffered prefix and
+every sequence of reads it returns the value (or errShortRead), leaves the stream and hands back the `remain` that
+`BR.readVarInt` defines on the concatenation — so `record_bytes`, `message_bytes`, `wrapper_bytes` and with them the
+token-level theorems hold however the network cuts a response, and `remain` always drops by exactly the bytes taken
+from the stream (seeded/C06-m7 lost the bytes consumed before a refill: the tail of the batch then eats bytes of the
+next response). -/
+theorem varint_refill (sz : Nat) (b : BV.BufRd) : (BV.readVarIntBuf sz b).abs = BR.readVarInt ⟨b.stream, sz⟩ :=
+  BV.readVarIntBuf_eq sz b
+
+/-- a two-byte varint (300 zigzag-encoded = 600 = 0xD8 0x04) whose second byte arrives with the next read, 10 bytes of
+the set left: the value, one byte of the next chunk left over, `remain` 8 — the same as with both bytes buffered -/
+example : BV.readVarIntBuf 10 ⟨[0xD8], [[0x04, 0x07]]⟩ = .ok (300, ⟨[0x07], []⟩, 8) ∧
+    BV.readVarIntBuf 10 ⟨[0xD8, 0x04, 0x07], []⟩ = .ok (300, ⟨[0x07], []⟩, 8) ∧
+    BV.readVarIntBuf 10 ⟨[], [[0xD8], [], [0x04], [0x07]]⟩ = .ok (300, ⟨[], [[0x07]]⟩, 8) ∧
+    BV.readVarIntBuf 1 ⟨[0xD8], [[0x04, 0x07]]⟩ = .error (.short, ⟨[], [[0x04, 0x07]]⟩, 0) ∧
+    BV.readVarIntBuf 10 ⟨[0xD8], []⟩ = .error (.short, ⟨[], []⟩, 9) := by
+  refine ⟨?_, ?_, ?_, ?_, ?_⟩ <;> simp [BV.readVarIntBuf, BV.varLoop, BV.round, BV.scan, RW.unzigzag]
 
 /-! ### the decoder as the Go code is written (Model/PullReader.lean)
 
